@@ -441,6 +441,20 @@ def oracle(case, obs):
                         return ("disturbed_success_with_wrong_data", f"{where} fault {fault}: got {res!r}, no object")
                 elif not ok_err:
                     return ("disturbed_wrong_exception", f"{where} fault {fault}: {res!r}")
+            if case["full"] and x["op"] == "dl" and fault[0] == 0 and not (res is None):
+                # a segmented download whose INITIATION failed has not started: the client may put nothing more on
+                # the bus, except the one abort with the time-out code when no response came at all
+                reqs = [j for j, fr in enumerate(trace) if fr[0] == 0]
+                if reqs and (trace[reqs[0]][1] >> 5) == 1 and not (trace[reqs[0]][1] & 0x02):
+                    nxt = reqs[1] if len(reqs) > 1 else len(trace)
+                    answered = any(fr[0] == 1 for fr in trace[reqs[0] + 1:nxt])
+                    extra = [trace[j] for j in reqs[1:]]
+                    ok = (extra == []) if answered else \
+                        (len(extra) == 1 and len(extra[0]) == 9 and extra[0][1] == 0x80 and extra[0][5:9] == TIMEOUT_ABORT[4:])
+                    if not ok:
+                        return ("frame_after_failed_initiation",
+                                f"{where} fault {fault}: initiate download {'answered' if answered else 'not answered'}, "
+                                f"call raised {res!r}, yet the client then sent {[f[1:].hex() for f in extra]}")
             if case["full"] and fault[1]["f"] in ("lost", "lostreq", "delay"):
                 reqs = [j for j, fr in enumerate(trace) if fr[0] == 0]
                 if fault[0] < len(reqs):
@@ -646,6 +660,18 @@ def gen_cases(rng, tier):
         x = ul_x(rng, "upload", (0x2000, 0))
         x.update(idx=idx, sub=sub)
         cases.append(one("ul_badmux", [T(x), T(dl_x(rng, 5, "download", mux=(0x2000, 0)))]))
+    # ---- the server refuses the initiate download (abort) or does not answer it: nothing may follow on the bus
+    #      (frames are recorded until the failed stream object has been dropped and collected)
+    for n in (0, 1, 4, 5, 7, 8, 14, 15, 20):
+        for v in ("download", "force", "b0_nosize", "b0_size", "b0_size_force", "b7_size", "b7_nosize", "b1024_nosize",
+                  "b1024_size", "b1024_size_flush", "text"):
+            mux = rng.choice(MUXES)
+            m = [mux[0] & 255, mux[0] >> 8, mux[1]]
+            code = rng.choice(([2, 0, 1, 6], [0, 0, 2, 6], [0, 0, 0, 8], [0x22, 0, 0, 8]))
+            for f in (dict(f="replace", frames=[[0x80] + m + code]), dict(f="lost"), dict(f="lostreq")):
+                ts = [T(dl_x(rng, n, v, mux=mux), fault=[0, f]),
+                      T(dl_x(rng, rng.choice((3, 9)), "download", mux=mux)), T(ul_x(rng, "upload", mux))]
+                cases.append(one("dl_refused_" + f["f"], ts, store=[[mux_key(*mux), rdata(rng, 2)]]))
     # ---- back to back: 2..5 transfers on one client
     nseq = {"quick": 60, "thorough": 400, "search": 150}[tier]
     for _ in range(nseq):
